@@ -41,3 +41,6 @@ Fixpoint list_eqb {A} (eqb : A -> A -> bool) (a b : list A) : bool :=
   match a, b with [] , [] => true | x :: a', y :: b' => eqb x y && list_eqb eqb a' b' | _, _ => false end.
 Definition slist_eqb := list_eqb String.eqb.
 Definition nonempty (s : string) : bool := negb (String.eqb s "").
+
+(** strings with bytes that cannot be written in a literal: given as a list of byte values *)
+Definition bytes_str (l : list N) : string := fold_right (fun b s => String (ascii_of_N b) s) "" l.
